@@ -2,6 +2,7 @@ package doublesign
 
 import (
 	"errors"
+	"math"
 	"time"
 )
 
@@ -29,6 +30,16 @@ func (s *SyncStatus) Since(t time.Time) time.Duration {
 	return s.Now.Sub(t)
 }
 
+// remaining returns threshold - since, saturated at the largest representable duration
+func remaining(threshold, since time.Duration) time.Duration {
+	wait := threshold - since
+	if since < 0 && wait < threshold {
+		// overflow
+		return math.MaxInt64
+	}
+	return wait
+}
+
 type maxWaitError struct {
 	wait    time.Duration
 	waitErr error
@@ -53,19 +64,19 @@ func SyncedToEmit(s SyncStatus, threshold time.Duration) (time.Duration, error) 
 	}
 	var max maxWaitError
 	if s.Since(s.ExternalSelfEventDetected) < threshold {
-		max.apply(threshold-s.Since(s.ExternalSelfEventDetected), ErrSelfEventsOngoing)
+		max.apply(remaining(threshold, s.Since(s.ExternalSelfEventDetected)), ErrSelfEventsOngoing)
 	}
 	if s.Since(s.ExternalSelfEventCreated) < threshold {
-		max.apply(threshold-s.Since(s.ExternalSelfEventCreated), ErrSelfEventsOngoing)
+		max.apply(remaining(threshold, s.Since(s.ExternalSelfEventCreated)), ErrSelfEventsOngoing)
 	}
 	if s.Since(s.BecameValidator) < threshold {
-		max.apply(threshold-s.Since(s.BecameValidator), ErrJustBecameValidator)
+		max.apply(remaining(threshold, s.Since(s.BecameValidator)), ErrJustBecameValidator)
 	}
 	if s.Since(s.LastConnected) < threshold {
-		max.apply(threshold-s.Since(s.LastConnected), ErrJustConnected)
+		max.apply(remaining(threshold, s.Since(s.LastConnected)), ErrJustConnected)
 	}
 	if s.Since(s.P2PSynced) < threshold {
-		max.apply(threshold-s.Since(s.P2PSynced), ErrJustP2PSynced)
+		max.apply(remaining(threshold, s.Since(s.P2PSynced)), ErrJustP2PSynced)
 	}
 
 	return max.wait, max.waitErr
